@@ -33,17 +33,67 @@ theorem specialLiteral : Gen.specialLiteral = FV.specialLiteral := by funext s; 
 theorem placeholder : Gen.placeholder = FV.placeholder := by funext f; cases f <;> rfl
 theorem snippetBody : Gen.snippetBody = FV.snippetBody := by funext f; cases f <;> rfl
 
+theorem formatCmp : Gen.formatCmp = FV.formatCmp := by funext c t; cases c <;> rfl
+theorem formatCmp2 {α : Type} : @Gen.formatCmp2 α = @FV.formatCmp2 α := by funext c l r; cases c <;> rfl
+theorem sizeMatching : Gen.sizeMatching = FV.sizeMatching := by funext s; cases s <;> rfl
+theorem compilePermCheck : Gen.compilePermCheck = FV.compilePermCheck := by funext p; cases p <;> rfl
+
+/-! ### the format-list generator and the size comparison (target_scheme.rs) -/
+
+theorem exactByteSize : Gen.exactByteSize = FV.exactByteSize := by
+  funext s; simp only [Gen.exactByteSize, FV.exactByteSize, sizeMult]
+
+theorem compileSizeComp : Gen.compileSizeComp = FV.compileSizeComp := by
+  funext c; simp only [Gen.compileSizeComp, FV.compileSizeComp, formatCmp2, sizeMatching, exactByteSize]
+
+theorem joinWith_nil : ∀ (ts : List Text), joinWith [] ts = ts.flatten
+  | [] => rfl
+  | [x] => by simp [joinWith]
+  | x :: y :: r => by
+    have ih := joinWith_nil (y :: r)
+    simp only [joinWith, List.append_nil, ih, List.flatten_cons]
+
+theorem skelElement_model : Gen.skelElement FV.templateEscape FV.placeholder FV.specialLiteral = FV.elementTemplate := by
+  funext e; cases e <;> rfl
+
+theorem skelItems_model : Gen.skelItems FV.snippetBody = FV.itemsOf := by
+  funext es; rfl
+
+theorem collect_templateOf (es : List FormatElement) :
+    (match Gen.skelCollect FV.elementTemplate es with
+     | .ok ts => FV.templateOf es = .ok ts.flatten
+     | .error x => FV.templateOf es = .error x) := by
+  induction es with
+  | nil => rfl
+  | cons e es ih =>
+    simp only [Gen.skelCollect, FV.templateOf]
+    cases he : FV.elementTemplate e with
+    | error x => rfl
+    | ok t =>
+      simp only
+      cases hc : Gen.skelCollect FV.elementTemplate es with
+      | error x => rw [hc] at ih; simp only at ih; rw [ih]
+      | ok ts => rw [hc] at ih; simp only at ih; rw [ih]; simp only [List.flatten_cons]
+
+/-- `impl TargetScheme for Vec<FormatElement>`: which function renders each kind of element, which fields
+    contribute an argument, the separators and the `(format #f "…" …)` template, read from the source
+    (matched as a statement skeleton), give the model's `compileFormat`. -/
+theorem compileFormat : Gen.compileFormat = FV.compileFormat := by
+  funext es
+  unfold Gen.compileFormat Gen.formatSkeleton FV.compileFormat
+  rw [templateEscape, placeholder, specialLiteral, snippetBody, skelElement_model, skelItems_model]
+  have h := collect_templateOf es
+  cases hc : Gen.skelCollect FV.elementTemplate es with
+  | error x => rw [hc] at h; simp only at h; rw [h]
+  | ok ts => rw [hc] at h; simp only at h; rw [h]; simp only [joinWith_nil]
+
 /-- `impl TargetScheme for Test`: 26 arms read from the source (constant texts, comparison fields,
     time fields, matcher templates, helper calls); the 14 remaining arms (the unsupported tests and
     `-xattr-match`) refer to the model and are pinned by their token text. -/
 theorem compileTest : Gen.compileTest = FV.compileTest := by
   funext clk t st
-  cases t <;> first | rfl | (simp only [Gen.compileTest, schemeEscape]; rfl)
+  cases t <;> first | rfl | (simp only [Gen.compileTest, schemeEscape, compileSizeComp]; rfl)
 
-theorem formatCmp : Gen.formatCmp = FV.formatCmp := by funext c t; cases c <;> rfl
-theorem formatCmp2 {α : Type} : @Gen.formatCmp2 α = @FV.formatCmp2 α := by funext c l r; cases c <;> rfl
-theorem sizeMatching : Gen.sizeMatching = FV.sizeMatching := by funext s; cases s <;> rfl
-theorem compilePermCheck : Gen.compilePermCheck = FV.compilePermCheck := by funext p; cases p <;> rfl
 
 /-- `impl TargetScheme for Action`: 9 arms read from the source (constant texts, which printer is
     requested with which terminator, the template around the printer name and the format); the three
